@@ -5,7 +5,11 @@ Three families (DESIGN.md 5/C03):
         Gaussian-integer matrices, every object class, composite shapes (), (2,), (2,3), dimension 1..3;
   (ii)  hyperbolic, with tolerance: the same histories over an isometry alphabet for the twelve hyperbolic
         classes, primary and derived data compared row-projectively and derived data recomputed by an oracle;
-  (iii) representations: every word of length <= L over {a,b,A,B}: rep[w] @ point == M_w . p^T.
+  (iii) representations: every word of length <= L over {a,b,A,B}: rep[w] @ point == M_w . p^T;
+  (iv)  mixed classes: A in {projective.Transformation, hyperbolic.Isometry} (isometric, unimodular non-isometric,
+        scaled, and products across the two classes) acting on X of either module (transformations included), single
+        and composite: type / composite shape of X in every broadcast mode, A @ X == A.apply(X), inverse, associativity
+        with a factor of the other class, identity of the other module.
 
 The oracle for the action itself is the definition "every coordinate row v of the object becomes M v"
 (M the matrix acting on column vectors), written with plain einsum / matmul on the unit rows; it never calls
@@ -694,6 +698,240 @@ def all_words(L):
 
 
 # ------------------------------------------------------------------------------------------------
+# family (iv): compositions across the two transformation classes, Isometry-typed non-isometries
+# ------------------------------------------------------------------------------------------------
+MIX_ROUTES = ["P:uni", "P:iso", "H:iso", "H:uni", "H:scaled-iso", "H:P@H", "P:H@P"]
+MIX_ISOMETRIC = ("P:iso", "H:iso", "H:scaled-iso")
+MIX_X_TRANSFORMS = ["P.Transformation", "H.Isometry"]
+MIX_X_PROJ = ["P.Point", "P.PointPair", "P.Polygon", "P.Simplex", "P.Subspace"]
+MIX_X_HYP_ANY = ["H.Point", "H.IdealPoint", "H.PointPair", "H.Segment", "H.Geodesic", "H.Polygon"]
+MIX_X_HYP_ISO = ["H.DualPoint", "H.TangentVector", "H.Horosphere", "H.HorosphereArc", "H.Hyperplane", "H.Subspace"]
+MIX_MODES = ["elementwise", "pairwise", "pairwise_reversed"]
+
+
+def mix_classes(route):
+    return MIX_X_TRANSFORMS + MIX_X_PROJ + MIX_X_HYP_ANY + (MIX_X_HYP_ISO if route in MIX_ISOMETRIC else [])
+
+
+def mix_uni(j, m):
+    """Pairwise distinct, non-symmetric integer ROW matrices of determinant 1 (unit lower @ unit upper)."""
+    lo, up = np.eye(m), np.eye(m)
+    r1, r2 = int_row(j, m), int_row(3 * j + 1, m)
+    for a in range(m):
+        for b in range(a + 1, m):
+            up[a, b] = r1[(a + b) % m] + (j % 3)
+            lo[b, a] = r2[(a * b + 1) % m] - (j % 2)
+    up[0, m - 1] = j + 1
+    return lo @ up
+
+
+def mix_iso(j, n):
+    """Pairwise distinct elements of SO(n,1) as ROW matrices, products of rotations and boosts."""
+    m = n + 1
+
+    def rot(a, b, th):
+        r = np.eye(m)
+        r[a, a] = r[b, b] = math.cos(th)
+        r[a, b] = -math.sin(th)
+        r[b, a] = math.sin(th)
+        return r
+
+    def boost(a, s):
+        r = np.eye(m)
+        r[0, 0] = r[a, a] = math.cosh(s)
+        r[0, a] = r[a, 0] = math.sinh(s)
+        return r
+    R = rot(1, 2, 0.3 + 0.37 * j) @ boost(1, 0.25 + 0.07 * j) @ rot(1, 2, -0.2 * j - 0.1)
+    if n >= 3:
+        R = R @ rot(2, 3, 0.5 + 0.11 * j) @ boost(3, 0.1 * (j % 4))
+    return R
+
+
+def stack_units(units, shape):
+    shape = tuple(shape)
+    u = np.array(units[:size(shape)])
+    return u.reshape(shape + u.shape[1:])
+
+
+def build_mix_A(route, n, shape, off=0):
+    """A (possibly composite) transformation of one of the two classes; returns (object, expected class,
+    oracle row matrices)."""
+    from geometry_tools import projective as P, hyperbolic as H
+    N = size(shape)
+    U = stack_units([mix_uni(off + j, n + 1) for j in range(N)], shape)
+    I = stack_units([mix_iso(off + j + 3, n) for j in range(N)], shape)
+    if route == "P:uni":
+        return P.Transformation(U.copy()), P.Transformation, U
+    if route == "P:iso":
+        return P.Transformation(I.copy()), P.Transformation, I
+    if route == "H:iso":
+        return H.Isometry(np.swapaxes(I, -1, -2).copy(), column_vectors=True), H.Isometry, I
+    if route == "H:uni":
+        return H.Isometry(U.copy()), H.Isometry, U
+    if route == "H:scaled-iso":
+        return H.Isometry(2.5 * I), H.Isometry, 2.5 * I
+    if route == "H:P@H":          # a projective transformation acting on isometries: the type of X
+        return P.Transformation(U.copy()) @ H.Isometry(I.copy()), H.Isometry, I @ U
+    if route == "P:H@P":
+        return H.Isometry(I.copy()) @ P.Transformation(U.copy()), P.Transformation, U @ I
+    raise ValueError(route)
+
+
+def build_mix_X(xcls, n, shape, seed):
+    """Object X of a class of either module; returns (object, is-a-transformation)."""
+    from geometry_tools import projective as P, hyperbolic as H
+    mod, name = xcls.split(".")
+    if xcls == "H.Isometry":
+        I = stack_units([mix_iso(11 + j, n) for j in range(size(shape))], shape)
+        return H.Isometry(I.copy()), True
+    if mod == "P":
+        X, _, _ = build_proj({"d": n, "cls": name, "shape": list(shape), "cx": False})
+        return X, name == "Transformation"
+    X, data, _ = build_hyp({"cls": name, "n": n, "shape": list(shape), "seed": seed})
+    return X, False
+
+
+def unit_err(a, b, whole):
+    """Projective distance between two arrays of units: rows compared row by row, matrices of
+    transformations as one projective vector each."""
+    if a is None or b is None:
+        return 0.0 if a is None and b is None else float("inf")
+    a, b = np.asarray(a), np.asarray(b)
+    if a.shape != b.shape:
+        return float("inf")
+    if whole:
+        a, b = a.reshape(a.shape[:-2] + (-1,)), b.reshape(b.shape[:-2] + (-1,))
+    return rows_err(a, b)
+
+
+def case_mixed(case):
+    from geometry_tools import projective as P, hyperbolic as H
+    from mc.oracle import shapes as S
+    n, route, sA, xcls, sX, seed = case["n"], case["route"], tuple(case["sA"]), case["xcls"], tuple(case["sX"]), case["seed"]
+    v, t = [], 0
+    fam = "%s@%s" % (route.split(":")[0], xcls.split(".")[0])            # which module acts on which
+    A, Acls, RA = build_mix_A(route, n, sA)
+    t += 1
+    if type(A) is not Acls:
+        v.append(V("mixed/type/transformation-product/%s" % route, "the %s route gives a %s, expected %s (A @ X has the type of X)" % (
+            route, type(A).__name__, Acls.__name__)))
+        return {"v": v, "t": t, "o": "type", "nt": True}
+    if tuple(A.shape) != sA or unit_err(A.proj_data, RA, True) > TOL_SIN:
+        v.append(V("mixed/product-matrix/%s" % route, "route %s shape %r: matrix\n%r\nexpected\n%r" % (route, A.shape, A.proj_data, RA)))
+        return {"v": v, "t": t, "o": "matrix", "nt": True}
+    X, whole = build_mix_X(xcls, n, sX, seed)
+    if X is None:
+        return {"v": [], "t": t, "o": "skip:hyperplane-constructor", "nt": False}
+    X0 = np.array(X.proj_data)
+    A0 = None if X.aux_data is None else np.array(X.aux_data)
+    isometric = route in MIX_ISOMETRIC
+    ndims = (X.unit_ndims, X.aux_ndims)
+
+    def typed(tag, Y, shape):
+        if type(Y) is not type(X):
+            v.append(V("mixed/type/%s/%s/%s" % (tag, fam, xcls), "A=%s (%s) X=%s: result is a %s" % (route, type(A).__name__, xcls, type(Y).__name__)))
+            return False
+        if tuple(Y.shape) != tuple(shape) or (Y.unit_ndims, Y.aux_ndims) != ndims:
+            v.append(V("mixed/composite-shape/%s/%s/%s" % (tag, fam, xcls), "A%r X%r: composite shape %r (unit %d, aux %d), expected %r" % (
+                sA, sX, Y.shape, Y.unit_ndims, Y.aux_ndims, tuple(shape))))
+            return False
+        if (Y.aux_data is None) != (A0 is None):
+            v.append(V("mixed/aux-presence/%s/%s/%s" % (tag, fam, xcls), "derived data appeared / disappeared"))
+            return False
+        return True
+
+    def same(tag, Y, Z_data, Z_aux, ordered_aux=True):
+        e = unit_err(Y.proj_data, Z_data, whole)
+        if not e <= TOL_SIN:
+            v.append(V("mixed/%s/primary/%s/%s" % (tag, fam, xcls), "A=%s%r X=%s%r: primary data differ projectively (sin err %.3g)\n%r\nexpected\n%r" % (
+                route, sA, xcls, sX, e, Y.proj_data, Z_data)))
+        if Z_aux is not None:
+            e = unit_err(Y.aux_data, Z_aux, False) if ordered_aux else pair_err_unordered(Y.aux_data, Z_aux)
+            if not e <= TOL_SIN:
+                v.append(V("mixed/%s/aux/%s/%s" % (tag, fam, xcls), "A=%s%r X=%s%r: derived data differ projectively (sin err %.3g)" % (route, sA, xcls, sX, e)))
+
+    # every broadcast mode: type, composite shape, entry [idx] = A[j] applied to X[i]
+    el = None
+    for mode in MIX_MODES:
+        imap = S.index_map(mode, sX, sA)
+        if imap is None:
+            continue
+        rs = S.result_shape(mode, sX, sA)
+        Y = A.apply(X, broadcast=mode)
+        t += 1
+        if not typed("apply-" + mode, Y, rs):
+            continue
+        exp = np.array([X0[i] @ RA[j] for (_, i, j) in imap]).reshape(tuple(rs) + X0.shape[len(sX):])
+        expa = None
+        if A0 is not None and isometric:
+            expa = np.array([A0[i] @ RA[j] for (_, i, j) in imap]).reshape(tuple(rs) + A0.shape[len(sX):])
+        same("apply-vs-oracle/" + mode, Y, exp, expa, ordered_aux=not xcls.endswith("Segment"))
+        if mode == "elementwise":
+            el = Y
+    if el is None or v:
+        return {"v": v, "t": t, "o": "apply", "nt": True}
+    rs = tuple(el.shape)
+    # the operator is the elementwise application
+    Y = A @ X
+    t += 1
+    if typed("matmul", Y, rs):
+        same("matmul-vs-apply", Y, el.proj_data, el.aux_data)
+    # inverse: of the class of A, undoes A on X (X broadcast to the result shape)
+    Ai = A.inv()
+    t += 1
+    if type(Ai) is not type(A) or tuple(Ai.shape) != sA:
+        v.append(V("mixed/type/inverse/%s" % route, "inv() of a %s of shape %r is a %s of shape %r" % (type(A).__name__, sA, type(Ai).__name__, Ai.shape)))
+    else:
+        bX = np.broadcast_to(X0, rs + X0.shape[len(sX):])
+        bA = None if A0 is None else np.broadcast_to(A0, rs + A0.shape[len(sX):])
+        back = Ai @ el
+        t += 1
+        if typed("inverse", back, rs):
+            same("inverse", back, bX, bA)
+        AiA = Ai @ A
+        AAi = A @ Ai
+        t += 2
+        for nm, Q in (("inv@A", AiA), ("A@inv", AAi)):
+            if type(Q) is not type(A):
+                v.append(V("mixed/type/inverse-product/%s" % route, "%s is a %s" % (nm, type(Q).__name__)))
+            elif not unit_err(Q.proj_data, np.broadcast_to(np.eye(n + 1), sA + (n + 1, n + 1)), True) <= TOL_SIN:
+                v.append(V("mixed/inverse-product/%s" % route, "%s is not the identity projectively:\n%r" % (nm, Q.proj_data)))
+            else:
+                Z = Q @ X
+                t += 1
+                if typed("inverse-product", Z, rs):
+                    same("inverse-product", Z, bX, bA)
+    # associativity with a single transformation B of each class (so both mixed orders occur)
+    for broute in ("P:uni", "H:iso", "H:uni"):
+        if xcls in MIX_X_HYP_ISO and broute != "H:iso":
+            continue            # classes whose derived / dual data only make sense under isometries
+        B, Bcls, RB = build_mix_A(broute, n, (), off=20)
+        AB, BA = A @ B, B @ A
+        t += 2
+        if type(AB) is not Bcls or type(BA) is not Acls:
+            v.append(V("mixed/type/transformation-product/%s@%s" % (route.split(":")[0], broute.split(":")[0]),
+                       "A=%s B=%s: A @ B is a %s, B @ A is a %s" % (route, broute, type(AB).__name__, type(BA).__name__)))
+            continue
+        if tuple(AB.shape) != sA or tuple(BA.shape) != sA:
+            v.append(V("mixed/composite-shape/transformation-product", "A%r @ B(): shapes %r, %r" % (sA, AB.shape, BA.shape)))
+            continue
+        L1, R1 = AB @ X, A @ (B @ X)
+        L2, R2 = BA @ X, B @ (A @ X)
+        t += 6
+        for tag, L_, R_ in (("assoc/(A@B)@X", L1, R1), ("assoc/(B@A)@X", L2, R2)):
+            if typed(tag, L_, rs) and typed(tag, R_, rs):
+                same(tag, L_, R_.proj_data, R_.aux_data)
+    # the identity of the OTHER module
+    Id = P.identity(n) if xcls.startswith("H.") else H.identity(n)
+    Z = Id @ X
+    t += 1
+    if typed("identity", Z, sX):
+        same("identity", Z, X0, A0)
+    return {"v": v, "t": t, "o": repr((route, xcls, rs, round(float(np.sum(np.abs(el.proj_data))), 3))),
+            "nt": not np.allclose(RA, np.eye(n + 1))}
+
+
+# ------------------------------------------------------------------------------------------------
 def run(ctx):
     q = ctx.quick
     only = getattr(ctx, "only", None)
@@ -713,6 +951,12 @@ def run(ctx):
     ctx.assume("applying a transformation to a raw ndarray returns a generic ProjectiveObject (documented): class "
                "preservation is demanded for objects only")
     ctx.assume("ConvexPolygon is not in the property's list and is not checked")
+    ctx.assume("family (iv): an object of class Isometry is a transformation whatever its matrix (the library itself produces "
+               "Isometry-typed non-isometries: Transformation @ Isometry has the type of X); the laws are demanded for it as for "
+               "any invertible matrix.  Non-isometric A act on transformations, projective objects and the hyperbolic point / "
+               "pair / segment / geodesic / polygon classes (primary rows against the oracle, derived data only between the two "
+               "sides of a law); dual points, tangent vectors, horospheres, hyperplanes, subspaces only under isometric A")
+    ctx.assume("family (iv): all equalities are projective (rows up to scale, a transformation's matrix up to one scalar)")
     ctx.assume("the order in which a Segment stores its two ideal endpoints is not part of the property: compared "
                "order-free with the oracle, ordered between two library computations of the same object")
     ctx.tolerances["exact"] = "1e-12*(1+max|v|): integer / Gaussian-integer data, every product exact in float64"
@@ -732,6 +976,15 @@ def run(ctx):
         ctx.bfs("hyperbolic", "checks.c03:case_hyp", roots, depth=depth, chunk=16,
                 domains={"dimension": [2, 3], "classes": HYP_CLASSES, "composite shapes": SHAPES,
                          "isometry alphabet n=2": hyp_gens(2), "isometry alphabet n=3": hyp_gens(3)})
+    if want("mixed"):
+        MS = [[], [3], [2, 3]] if q else [[], [1], [3], [2, 1], [1, 3], [2, 3]]
+        cases = [{"n": n, "route": r, "sA": sa, "xcls": c, "sX": sx, "seed": ctx.seed}
+                 for n in (2, 3) for r in MIX_ROUTES for c in mix_classes(r) for sa in MS for sx in MS]
+        ctx.product("mixed-classes", "checks.c03:case_mixed", cases, chunk=16,
+                    domains={"dimension": [2, 3], "transformation A (class:matrix)": MIX_ROUTES,
+                             "X, any A": MIX_X_TRANSFORMS + MIX_X_PROJ + MIX_X_HYP_ANY, "X, isometric A only": MIX_X_HYP_ISO,
+                             "composite shapes of A and of X": MS, "broadcast modes": MIX_MODES,
+                             "second factor B for associativity": ["P:uni", "H:iso", "H:uni"]})
     if want("representations"):
         L = 4 if q else 6
         cfgs = [("proj", m, cx, s) for m in (2, 3, 4) for cx in (False, True) for s in ("col", "row")]
